@@ -34,7 +34,7 @@ DOTGIT_VARIANTS = [
 ]
 DOT_NAMES = [b"..", b".", b"", b". ", b".. ", b"...", b".. ."]
 SLASH_NAMES = [
-    b"a/b", b"a/../x", b"a/./b", b"a//b", b"../x", b"../../x", b"../other/b", b"a/", b"/", b".git/x", b".git/hooks/x", b".git/config",
+    b"a/b", b"a/../x", b"a/./b", b"a//b", b"../x", b"../../x", b"../other/b", b"a/", b".git/x", b".git/hooks/x", b".git/config",
     b"lnk/x", b"lnk/hooks/x", b".GIT/hooks/x", b"a/.git/x", b"a/.GIT/config", b"sub/../../other/x", b"a/b/../../../x",
     b"@S@/sandbox/abs-created", b"@S@/sandbox/other/b", b"@W@/.git/hooks/abs", b"@W@/abs-inside",
 ]
@@ -43,6 +43,8 @@ MISC_NAMES = [
     b"a\nb", b"a\tb", b" ", b"  x", b"-rf", b"~", b"$HOME", b"*", b"a\x7f", b"n" * 255, b"n" * 256, b"n" * 1200, b"con", b"aux.txt", b"NUL",
 ]
 ADVERSARIAL = DOTGIT_VARIANTS + DOT_NAMES + SLASH_NAMES + MISC_NAMES
+# we run as root: no name may be absolute unless it points into the per-case scratch directory (placeholder names)
+assert not any(n.startswith(b"/") for n in ADVERSARIAL)
 
 BLOB_MODES = [F, X, 0o104755, 0o102755, 0o101777, 0o100777, 0o100666, 0o100664, 0o106777, 0o100600, 0o100000, 0]
 LINK_MODES = [L, L, L, 0o120777, 0o120644]
@@ -146,6 +148,8 @@ LATER_OPS = ["checkout", "reset_hard", "uwt", "switch", "reset_index", "stash_po
 
 
 def make_step(rnd, op, ti):
+    if op in ("stash_roundtrip", "stash_push", "stash_pop"):
+        return {"op": op}
     st = {"op": op, "tree": ti}
     if op in ("checkout", "switch", "uwt"):
         st["force"] = bool(rnd.randrange(2))
@@ -249,6 +253,14 @@ def shape_case(rnd):
             steps.append(make_step(rnd, LATER_OPS[rnd.randrange(len(LATER_OPS) - 1)], 0))
         elif variant == 2 and n >= 2:
             steps[0]["tree"], steps[1]["tree"] = steps[1]["tree"], steps[0]["tree"]
+    if len(steps) >= 2 and chance(rnd, 15):
+        # restore individual paths of the later tree instead of switching to it (checkout -- <paths>, restore, reset_file)
+        last = steps[-1]
+        if "tree" in last and last["op"] != "reset_mixed":
+            leaves = flatten(trees[last["tree"]])
+            if leaves:
+                steps[-1] = {"op": ["checkout_paths", "restore", "reset_file"][rnd.randrange(3)], "tree": last["tree"],
+                             "paths": [leaves[rnd.randrange(len(leaves))][0] for _ in range(rnd.randrange(1, 3))]}
     if shape != "dup-raw" and not (shape == "slash-prefix"):
         trees = [canonical(t) for t in trees]
     return {"cfg": pick_cfg(rnd), "born": bool(rnd.randrange(2)), "trees": trees, "steps": steps, "shape": shape}
@@ -304,8 +316,8 @@ def free_case(rnd):
     steps = [make_step(rnd, FIRST_OPS[rnd.randrange(len(FIRST_OPS))], rnd.randrange(nt))]
     for _ in range(ns - 1):
         op = LATER_OPS[rnd.randrange(len(LATER_OPS))]
-        if chance(rnd, 12):
-            op = ["checkout_paths", "restore", "reset_file", "stash_roundtrip"][rnd.randrange(4)]
+        if chance(rnd, 15):
+            op = ["checkout_paths", "restore", "reset_file", "stash_roundtrip", "stash_push", "stash_pop"][rnd.randrange(6)]
         st = make_step(rnd, op, rnd.randrange(nt))
         if op in ("checkout_paths", "restore", "reset_file"):
             leaves = flatten(trees[st["tree"]])
